@@ -507,3 +507,9 @@ def replay(case, acc):
 
 def unit_test(case):
     return "# library (names from mc/checks/c06.py universe) and format (indent, value_column, trailing_comma, block_separator, parsing_failed_comment):\n# " + repr(case) + "\n"
+
+
+def ENV_SHARDS(tier):
+    """The broad, cheap families: run again in a fresh interpreter per environment (engine.run_environments)."""
+    return [s for s in shards('quick') if s[0] in ("history", "same", "wide", "big") or s == ("libs", ())]
+
